@@ -6,6 +6,21 @@ EXTENDS PoolConc, Json, IOUtils
 \* enough connection objects for every attempt to create one
 MCMaxConn == NThreads * Reqs * (MaxFails + 1)
 
+\* Partial-order reduction for EMISSION runs only (never for the stage-1 checks): thread-local steps
+\* commute with everything, so they are taken before any critical event fires; and of two adjacent
+\* independent critical events of different threads only the order "smaller thread first" is kept
+\* (the harness canonicalises what is left the same way, vh/c02.py: canonical()).
+AtLocal(p) == \/ Pc(p) \in {"g4", "send", "recv", "fin", "resp", "rel", "p4", "pend", "end"}
+              \/ p \in Threads /\ Pc(p) = "idle" /\ loc[p].left > 0
+PtrKinds == {"test", "load", "swap"}
+QKinds == {"qget", "qput"}
+Indep(a, b) == /\ a[1] # b[1]
+               /\ ~(a[2] \in PtrKinds /\ b[2] \in PtrKinds /\ "swap" \in {a[2], b[2]})
+               /\ ~(a[2] \in QKinds /\ b[2] \in QKinds)
+Reduce == hist' # hist =>
+            /\ \A p \in Procs : ~AtLocal(p)
+            /\ Len(hist) > 0 => ~(Indep(hist[Len(hist)], hist'[Len(hist')]) /\ hist'[Len(hist')][1] < hist[Len(hist)][1])
+
 \* ACTION_CONSTRAINT (emission runs, KeepHist = TRUE): when a behaviour ends - the pool object is
 \* dropped after quiescence, or everybody who is left is parked in a checkout - print the ordering of
 \* critical events (<<thread, kind>>), the outcomes the environment chose per attempt, and what the
